@@ -209,6 +209,13 @@ impl<'a> Hist<'a> {
         self.r.violation(sig, &detail, witness);
     }
 
+    /// A compared case: the (kind, outcome, cause) triple counts as the
+    /// distinct non-trivial case; the state it happened in is kept apart.
+    fn case(&mut self, triple: String, tag: &str) {
+        self.r.distinct("qualified_cases", format!("{triple}{}", sem(tag)));
+        self.r.nontrivial(triple);
+    }
+
     fn report(&mut self, issues: Vec<Issue>) {
         for (s, d) in issues { self.viol(&s, d) }
     }
@@ -254,7 +261,7 @@ impl<'a> Hist<'a> {
             let cause = match list_path {
                 Some(true) => "list", Some(false) => "requests", None => "task",
             };
-            self.r.nontrivial(format!("{how}-parent-sync/ok/{cause}{}", sem(tag)));
+            self.case(format!("{how}-parent-sync/ok/{cause}"), tag);
             match s1.as_ref().and_then(|s| s.last_exchange.as_ref()) {
                 None => out.push((
                     "parent-status-missing-after-ok-sync".into(),
@@ -366,7 +373,7 @@ impl<'a> Hist<'a> {
                 }
             }
         } else if let Some((cause, keyword)) = refusal {
-            self.r.nontrivial(format!("{how}-parent-sync/refused/{cause}{}", sem(tag)));
+            self.case(format!("{how}-parent-sync/refused/{cause}"), tag);
             match s1.as_ref().and_then(|s| s.last_exchange.as_ref()) {
                 None => out.push((
                     format!("parent-status-missing-after-refused-sync:{cause}"),
@@ -472,7 +479,7 @@ impl<'a> Hist<'a> {
         self.r.eval();
         self.r.count(&format!("exchanges_child_{how}"), 1);
         if !registered {
-            self.r.nontrivial(format!("{how}-child-request/refused/child-removed{}", sem(tag)));
+            self.case(format!("{how}-child-request/refused/child-removed"), tag);
             if c1.is_some() {
                 out.push((
                     "child-status-survives-child-remove".into(),
@@ -486,7 +493,7 @@ impl<'a> Hist<'a> {
         }
         match ok {
             Some(true) => {
-                self.r.nontrivial(format!("{how}-child-request/ok/{agent}{}", sem(tag)));
+                self.case(format!("{how}-child-request/ok/{agent}"), tag);
                 match c1.as_ref().and_then(|c| c.last_exchange.as_ref()) {
                     None => out.push((
                         "child-status-missing-after-ok-request".into(),
@@ -526,7 +533,7 @@ impl<'a> Hist<'a> {
                 }
             }
             Some(false) => {
-                self.r.nontrivial(format!("{how}-child-request/refused/{agent}{}", sem(tag)));
+                self.case(format!("{how}-child-request/refused/{agent}"), tag);
                 match c1.as_ref().and_then(|c| c.last_exchange.as_ref()) {
                     None => out.push((
                         "child-status-missing-after-refused-request".into(),
@@ -574,7 +581,7 @@ impl<'a> Hist<'a> {
             None => {
                 // unauthenticated request: must not be shown as a success
                 // of this child
-                self.r.nontrivial(format!("{how}-child-request/unauthenticated{}", sem(tag)));
+                self.case(format!("{how}-child-request/unauthenticated"), tag);
                 let same = serde_json::to_value(&c0).unwrap()
                     == serde_json::to_value(&c1).unwrap();
                 let failure = c1.as_ref()
@@ -613,7 +620,7 @@ impl<'a> Hist<'a> {
                 .map(|s| shadow_files(s) != shadow_files(&s1)).unwrap_or(true);
             let cause = if recreated { "republish-after-publisher-recreated" }
                 else if changed { "delta" } else { "no-change" };
-            self.r.nontrivial(format!("{how}-repo-sync/ok/{cause}{}", sem(tag)));
+            self.case(format!("{how}-repo-sync/ok/{cause}"), tag);
             match &s1.last_exchange {
                 None => out.push((
                     "repo-status-missing-after-ok-sync".into(),
@@ -653,7 +660,7 @@ impl<'a> Hist<'a> {
             self.repo_clean.insert(ca.to_string());
             out.extend(self.compare_files(ca, &s1, "after-sync"));
         } else if removed {
-            self.r.nontrivial(format!("{how}-repo-sync/refused/publisher-removed{}", sem(tag)));
+            self.case(format!("{how}-repo-sync/refused/publisher-removed"), tag);
             match &s1.last_exchange {
                 None => out.push((
                     "repo-status-missing-after-refused-sync".into(),
@@ -1215,13 +1222,12 @@ impl<'a> Hist<'a> {
                 || b["issues"]["parents"].as_array()
                     .map(|a| !a.is_empty()).unwrap_or(false);
             if nonempty {
-                let tag = sem(tag);
-                self.r.nontrivial(format!(
-                    "restart/compared/{}{}{tag}",
+                self.case(format!(
+                    "restart/equal-views/{}{}",
                     if failing { "with-failures" } else { "all-ok" },
                     if b["children"].as_object().map(|o| !o.is_empty())
                         .unwrap_or(false) { "+children" } else { "" },
-                ));
+                ), tag);
             }
         }
         self.report(out);
@@ -1356,10 +1362,6 @@ impl<'a> Hist<'a> {
             ("q", "c2") => vec![
                 rs("AS65102", "172.16.0.0/16", ""),
                 rs("AS65102-AS65103", "172.16.0.0/15", ""),
-            ],
-            (TA, "p") => vec![
-                rs("AS65000-AS65010", "10.0.0.0/8", "2001:db8::/32"),
-                rs("AS65000-AS65010", "10.0.0.0/9", "2001:db8::/32"),
             ],
             _ => return,
         };
@@ -1878,8 +1880,9 @@ fn scripted(hst: &mut Hist, scenario: u64) {
             hst.sync_parent("c1", "p", "");
             hst.suspend("p", "c2");
             hst.child_request("p", "c2", "list");
-            hst.child_update(TA, "p");
-            hst.sync_parent("p", TA, "+entitlement-changed");
+            hst.child_update("q", "c2");
+            hst.sync_parent("c2", &qn, "+entitlement-changed");
+            hst.sync_parent("p", TA, "");
             hst.pump("+entitlement-changed");
             if hst.stop { return }
             settle(hst, "+entitlement-changed");
@@ -1987,11 +1990,10 @@ fn random_step(hst: &mut Hist, deleted_once: &mut bool) {
             if hst.rng.chance(1, 2) { hst.sync_repo(ca, "+after-roa-delta"); }
         }
         3 => {
-            let (p, c, lp) = match hst.rng.below(4) {
+            let (p, c, lp) = match hst.rng.below(3) {
                 0 => ("p", "c1", "p".to_string()),
                 1 => ("p", "c2", "p".to_string()),
-                2 => ("q", "c2", qn.clone()),
-                _ => (TA, "p", TA.to_string()),
+                _ => ("q", "c2", qn.clone()),
             };
             hst.child_update(p, c);
             hst.sync_parent(c, &lp, "+entitlement-changed");
